@@ -539,7 +539,18 @@ def needs_annotation(ms):
     return (m.op == "collect" and not m.operands) or m.op == "partition" or (m.op == "unzip" and not m.operands and m.to == "VV")
 
 
-def render_prog(p):
+def noalloc_transform(t):
+    """Allocation-free spelling of the same chains: stack `Bag`s instead of `Vec`s, arrays instead of `vec!`,
+    an array-backed iterator source."""
+    import re
+    t = re.sub(r"vec!\[([^\]]*)\](?!\.into_iter)", r"[\1].into_iter().collect::<Bag<u32>>()", t)
+    t = re.sub(r"vec!\[([^\]]*)\]", r"[\1]", t)
+    t = t.replace("Vec<u32>", "Bag<u32>").replace("Vec<_>", "Bag<_>").replace("Vec<(u32, u32)>", "Bag<(u32, u32)>").replace("Vec<(usize, u32)>", "Bag<(usize, u32)>")
+    t = t.replace("si(", "sia(").replace("it_vec", "it_bag")
+    return t
+
+
+def render_prog(p, mode="twin"):
     """Returns (source of m_N and r_N, twin table entry) or None if the program cannot be rendered for its kind."""
     kind = p.kind
     asy = kind in ASYNC_KINDS
@@ -616,6 +627,14 @@ def render_prog(p):
         final = tup
     ref_body = " ".join(stmts) + " let __res: %s = %s; __res" % (rty, final)
     # ---------------- functions
+    if mode == "noalloc":
+        m_fn = "pub fn m_%d() -> String { let (__res, __n) = vrt::alloc::measure(|| { let __res: %s = %s! { %s }; __res }); format!(\"{:?}|allocs={}\", __res, __n) }" % (p.id, rty, kind, dsl)
+        r_fn = "pub fn r_%d() -> String { let (__res, __n) = vrt::alloc::measure(|| { %s }); format!(\"{:?}|allocs={}\", __res, __n) }" % (p.id, ref_body)
+        srcs = ", ".join("(%d, %d)" % s for s in p.srcs)
+        brs = ", ".join("(%d, %d)" % b[4] for b in p.branches)
+        entry = "Twin { id: %d, kind: %s, m: m_%d, r: r_%d, srcs: &[%s], branches: &[%s], tags: %s, text: %s, reference: %s, max_id: %d }" % (
+            p.id, rs(kind), p.id, p.id, srcs, brs, rs(",".join(sorted(p.tags | {"noalloc"}))), rs(noalloc_transform(dsl)), rs(noalloc_transform(ref_body)), p.max_id)
+        return noalloc_transform(m_fn + "\n" + r_fn), entry
     if asy:
         m_fn = "pub fn m_%d() -> String { run_async(async { let __res: %s = %s! { %s }.await; dbg(__res) }) }" % (p.id, rty, kind, dsl)
         r_fn = "pub fn r_%d() -> String { run_async(async { dbg({ %s }) }) }" % (p.id, ref_body)
